@@ -532,7 +532,8 @@ def signature(fr, flags, notes=None):
         if fr[1][0] == "const":
             return signature(fr[2] if fr[1][1] else fr[3], flags, notes)
         if fr[1] not in flags:
-            raise AnalysisError(f"undecided condition in row signature: {ir.show(fr[1], maxdepth=3)}")
+            from .aggmodel import Undecided
+            raise Undecided(fr[1], f"undecided condition in row signature: {ir.show(fr[1], maxdepth=3)}")
         return signature(fr[2] if flags[fr[1]] else fr[3], flags, notes)
     if k == "setitem":
         return signature(fr[1], flags, notes)
